@@ -193,9 +193,11 @@ def run_history(name, params, calls, key, conv, inject=None, ctx=None):
     trace = []
     info = None
     for j, (meth, val) in enumerate(calls):
-        if inject is not None and inject[0] == j:
+        for rep_ in range((inject[3] if len(inject) > 3 else 1) if (inject is not None and inject[0] == j) else 0):
+            if info is not None and info[0] != "ValueError":
+                break  # an earlier repetition was already accepted / fell over: that is the finding
             tot0 = zoo.counters(det)[0]
-            st0 = det.drift_state
+            st0 = det.drift_state if rep_ == 0 else info[2]
             np.random.seed(rngtap.seed_for(key, j))
             try:
                 do_call(det, name, inject[1], inject[2])
@@ -209,7 +211,7 @@ def run_history(name, params, calls, key, conv, inject=None, ctx=None):
                 kind_ = type(e).__name__ if (inner_in_menelaus or not isinstance(e, ValueError)) else "downstream:ValueError"
                 if not inner_in_menelaus and not isinstance(e, ValueError):
                     kind_ = "downstream:" + type(e).__name__
-                info = (kind_, zoo.counters(det)[0] == tot0, st0)
+                info = (kind_, zoo.counters(det)[0] == tot0 and (rep_ == 0 or info[1] is not False), st0)
         np.random.seed(rngtap.seed_for(key, j))
         try:
             do_call(det, name, meth, conv(j, val))
@@ -235,6 +237,10 @@ def offenders(name, d, calls, pos, rng):
         out.append(("y_rows", "list", "update", ([yt, yt], yp)))
         out.append(("y_rows", "ndarray", "update", (yt, np.array([yp, yp, yp]))))
         out.append(("y_rows", "frame", "update", (pd.DataFrame({"y": [yt, yt]}), yp)))
+        # one row with several values (a predict_proba row, a one-row frame with two columns): still not one label
+        out.append(("y_rows", "ndarray", "update", (np.array([[yt, 1 - yt]]), yp)))
+        out.append(("y_rows", "list", "update", (yt, [[yp, yp]])))
+        out.append(("y_rows", "frame", "update", (yt, pd.DataFrame({"p0": [yp], "p1": [1 - yp]}))))
         return out
     meth, val = calls[min(pos, len(calls) - 1)]
     base = np.asarray(val, dtype=float)
@@ -335,7 +341,11 @@ def _run_case(case, ctx):
             expect_accept, rule = False, "y_rows"
         else:
             expect_accept, rule = tab.classify(obj)
-        trace, info = run_history(name, params, calls, key, conv, inject=(pos, meth, obj))
+        # the caller may retry: the same malformed object offered two or three times in a row must be refused every time
+        times = 1 if rng.random() < 0.6 else int(rng.integers(2, 4))
+        if times > 1:
+            ctx.count("faults_repeated_in_a_row")
+        trace, info = run_history(name, params, calls, key, conv, inject=(pos, meth, obj, times))
         est = "none" if tab.width is None else tab.by
         base = dict(detector=name, params=params, fault=fault, offender_container=cont_, position=pos, valid_inputs_as=ckind,
                     established_by=est, offender_shape=list(shape_of(name, obj)[:2]) if k != "y" else None, calls=len(calls))
